@@ -15,6 +15,38 @@ META = {
 }
 
 
+def check_routes_fallback(R, tonic, rule):
+    """every Routes value answers an unknown path with the gRPC UNIMPLEMENTED response (200, application/grpc, grpc-status 12): the
+    fallback is installed by Default, and every way to obtain a Routes goes through it"""
+    df = tonic.body(re.compile(r'<service::router::Routes as std::default::Default>::default$'))
+    R.saw(df)
+    fb = df.calls(name='fallback')
+    okf = len(fb) == 1 and any('k' in a and (a['k'].get('fn') or '').endswith('router::unimplemented') for a in fb[0][1]['args']) and is_call(strip_refs(df.origin(fb[0][1]['args'][0])), name='new')
+    R.check(okf, rule, 'default-has-fallback', site(df), 'Routes::default = Router::new().fallback(unimplemented): %r (an empty Routes must answer UNIMPLEMENTED too)' % okf)
+    ag = mirlib.aggregates(df, 'service::router::Routes')
+    R.check(len(ag) == 1 and term_contains(df.origin(ag[0][4][0]), lambda x: is_call(x, name='fallback')), rule, 'default-router-is-that-one', site(df), 'the stored router is the one with the fallback')
+    un = tonic.body('service::router::unimplemented::{closure#0}')
+    R.saw(un)
+    su = un.calls(pat='Status::unimplemented')
+    ih = status_response_sites(tonic, un)
+    em = un.calls(pat='Body', name='empty') + [x for c_ in tonic.bodies if c_.kind == 'closure' and c_.path.startswith(un.path + '::') for x in c_.calls(pat='Body', name='empty')]
+    R.check(len(su) == 1 and len(ih) == 1 and len(em) == 1 and term_contains(un.origin(ih[0][1]['args'][0]), lambda x: is_call(x, pat='Status::unimplemented')), rule, 'fallback=unimplemented', site(un), 'Status::unimplemented("").into_http() with an empty body')
+    makers = {}
+    for bd in tonic.bodies:
+        if bd.kind == 'promoted' or 'service::router' not in bd.path:
+            continue
+        for bb, i, p, a, ops in mirlib.aggregates(bd, 'service::router::Routes'):
+            makers.setdefault(short(bd.path), []).append(show(bd.origin(ops[0]))[:70])
+    okm = set(makers) <= {'<service::router::Routes as std::default::Default>::default', 'tonic::service::router::Routes::prepare',
+                           '<service::router::Routes as std::convert::From<axum::Router>>::from', '<service::router::Routes as std::clone::Clone>::clone'}
+    R.check(okm and '<service::router::Routes as std::default::Default>::default' in makers, rule, 'routes-constructors', '', 'bodies constructing Routes: %r' % sorted(makers))
+    nw = tonic.body('service::router::Routes::new')
+    R.check(len(nw.calls(name='default')) == 1 and len(nw.calls(name='add_service')) == 1, rule, 'new=default+add', site(nw), 'Routes::new = default().add_service(svc)')
+    rb = tonic.body('service::router::RoutesBuilder::routes')
+    R.check(len(rb.calls(name='unwrap_or_default')) == 1, rule, 'builder-empty=default', site(rb), 'RoutesBuilder::routes = routes.unwrap_or_default()')
+
+
+
 def run(R):
     tonic = R.crate('tonic')
 
@@ -28,32 +60,7 @@ def run(R):
         tpl, args = recipe_template(string_recipe(ad, rs[0][1]['args'][1])) if rs else (None, [])
         R.eq(tpl, '/{}/{*rest}', 'C10.R1', 'route-pattern', site(ad, rs[0][0]) if rs else site(ad), 'route pattern, as literal pieces around the arguments (format!, concat or push_str spelling)')
         R.check(len(args) == 1 and (constdef(args[0]) or '').endswith('NamedService::NAME'), 'C10.R1', 'route-name=S::NAME', site(ad), 'pattern argument = %s' % (show(args[0]) if args else None))
-        df = tonic.body(re.compile(r'<service::router::Routes as std::default::Default>::default$'))
-        R.saw(df)
-        fb = df.calls(name='fallback')
-        okf = len(fb) == 1 and any('k' in a and (a['k'].get('fn') or '').endswith('router::unimplemented') for a in fb[0][1]['args']) and is_call(strip_refs(df.origin(fb[0][1]['args'][0])), name='new')
-        R.check(okf, 'C10.R1', 'default-has-fallback', site(df), 'Routes::default = Router::new().fallback(unimplemented): %r (an empty Routes must answer UNIMPLEMENTED too)' % okf)
-        ag = mirlib.aggregates(df, 'service::router::Routes')
-        R.check(len(ag) == 1 and term_contains(df.origin(ag[0][4][0]), lambda x: is_call(x, name='fallback')), 'C10.R1', 'default-router-is-that-one', site(df), 'the stored router is the one with the fallback')
-        un = tonic.body('service::router::unimplemented::{closure#0}')
-        R.saw(un)
-        su = un.calls(pat='Status::unimplemented')
-        ih = status_response_sites(tonic, un)
-        em = un.calls(pat='Body', name='empty') + [x for c_ in tonic.bodies if c_.kind == 'closure' and c_.path.startswith(un.path + '::') for x in c_.calls(pat='Body', name='empty')]
-        R.check(len(su) == 1 and len(ih) == 1 and len(em) == 1 and term_contains(un.origin(ih[0][1]['args'][0]), lambda x: is_call(x, pat='Status::unimplemented')), 'C10.R1', 'fallback=unimplemented', site(un), 'Status::unimplemented("").into_http() with an empty body')
-        makers = {}
-        for bd in tonic.bodies:
-            if bd.kind == 'promoted' or 'service::router' not in bd.path:
-                continue
-            for bb, i, p, a, ops in mirlib.aggregates(bd, 'service::router::Routes'):
-                makers.setdefault(short(bd.path), []).append(show(bd.origin(ops[0]))[:70])
-        okm = set(makers) <= {'<service::router::Routes as std::default::Default>::default', 'tonic::service::router::Routes::prepare',
-                               '<service::router::Routes as std::convert::From<axum::Router>>::from', '<service::router::Routes as std::clone::Clone>::clone'}
-        R.check(okm and '<service::router::Routes as std::default::Default>::default' in makers, 'C10.R1', 'routes-constructors', '', 'bodies constructing Routes: %r' % sorted(makers))
-        nw = tonic.body('service::router::Routes::new')
-        R.check(len(nw.calls(name='default')) == 1 and len(nw.calls(name='add_service')) == 1, 'C10.R1', 'new=default+add', site(nw), 'Routes::new = default().add_service(svc)')
-        rb = tonic.body('service::router::RoutesBuilder::routes')
-        R.check(len(rb.calls(name='unwrap_or_default')) == 1, 'C10.R1', 'builder-empty=default', site(rb), 'RoutesBuilder::routes = routes.unwrap_or_default()')
+        check_routes_fallback(R, tonic, 'C10.R1')
 
     # ---------------------------------------------------------------- R2 every generated dispatcher
     R.describe('C10.R2', 'every generated server dispatcher: match on req.uri().path() by whole-string equality; each arm constant = "/" + SERVICE_NAME + "/" + method; default arm answers grpc-status 12 with the gRPC content-type')
